@@ -1,6 +1,8 @@
 import RtenVerif.Driver.Util
 import RtenVerif.Model.FastBroadcast
 import RtenVerif.Model.InPlace
+import RtenVerif.Model.BinaryDispatch
+import RtenVerif.Generated.RegistryOps
 
 namespace RtenVerif.Driver.C14
 open RtenVerif.Driver RtenVerif.FastBroadcast
@@ -10,6 +12,75 @@ def parseShape (s : String) : Option (List Nat) :=
 
 def field (key : String) (ws : List String) : Option String :=
   ws.findSome? fun w => if w.startsWith (key ++ "=") then some (w.drop (key.length + 1)).toString else none
+
+open RtenVerif.Layout in
+/-- `<base>@<size:stride,…>` (`-` = rank 0). -/
+def parseView (w : String) : Option View :=
+  match w.splitOn "@" with
+  | [b, ds] => do
+    let base ← b.toNat?
+    let dims ← if ds == "-" then some [] else (ds.splitOn ",").mapM (fun d =>
+      match d.splitOn ":" with
+      | [x, y] => do let a ← x.toNat?; let c ← y.toNat?; pure (a, c)
+      | _ => none)
+    pure ⟨base, 0, dims⟩
+  | _ => none
+
+def showShape (s : List Nat) : String := if s.isEmpty then "-" else showNats "," s
+def showData (s : List Int) : String := if s.isEmpty then "-" else showInts "," s
+
+def showTens (t : RtenVerif.InPlace.Tens Int) : String := s!"shape={showShape t.shape} data={showData t.data}"
+
+def wrap32 := RtenVerif.InPlace.wrap32
+
+open RtenVerif.Layout in
+def handleBop (op : String) (ws : List String) : String :=
+  match (field "a" ws).bind parseView, (field "b" ws).bind parseView with
+  | some a, some b =>
+    let f : Int → Int → Int := match op with
+      | "Add" => fun x y => wrap32 (x + y)
+      | "Sub" => fun x y => wrap32 (x - y)
+      | _ => fun x y => wrap32 (x * y)
+    match binaryOp f a (fun i => (i : Int) + 1) b (fun i => 100 * ((i : Int) + 1)) with
+    | some t => showTens t
+    | none => "err"
+  | _, _ => "bad-request"
+
+open RtenVerif.Layout in
+def handleUop (ws : List String) : String :=
+  match (field "a" ws).bind parseView with
+  | some a => showTens (unaryOp (fun x => wrap32 (-x)) a (fun i => (i : Int) + 1))
+  | none => "bad-request"
+
+open RtenVerif.Layout in
+def handleTi (ws : List String) : String :=
+  match (field "in" ws).bind parseView, field "perms" ws with
+  | some v, some ps =>
+    let specs : Option (List PermuteSpec) := (ps.splitOn ";").mapM (fun p =>
+      if p == "r" then some ⟨0, none⟩
+      else if p == "e" then some ⟨0, some []⟩
+      else (parseNatList "," p).map (fun l => ⟨0, some l⟩))
+    match specs with
+    | none => "bad-request"
+    | some specs =>
+      -- storage as a list: element i is i + 1
+      let n := v.base + (v.dims.map (fun d => (d.1 - 1) * d.2)).sum + 3
+      let t : TState := ⟨(List.range n).map (fun i => i + 1), v⟩
+      match applyTransforms specs [t] with
+      | .ok [t'] =>
+        let d := (RtenVerif.Iter.rowMajor t'.view.dims).map (fun o => ((t'.store.getD (t'.view.base + o) 0 : Nat) : Int))
+        s!"shape={showShape (sizes t'.view.dims)} data={showData d}"
+      | .ok _ => "bad-request"
+      | .error .err => "err"
+      | .error .panic => "panic"
+  | _, _ => "bad-request"
+
+def handleCov (ws : List String) : String :=
+  let names := match ws with
+    | [w] => w.splitOn ","
+    | _ => []
+  let missing := RtenVerif.Generated.RegistryOps.registryOps.filter (fun n => !names.contains n)
+  s!"not-exercised={joinWith "," missing}"
 
 def handle (line : String) : String :=
   match words line with
@@ -29,6 +100,10 @@ def handle (line : String) : String :=
         if d.isEmpty then "-" else showNats "," d
       else "err"
     | _, _ => "bad-request"
+  | "bop" :: op :: ws => handleBop op ws
+  | "uop" :: ws => handleUop ws
+  | "ti" :: ws => handleTi ws
+  | "cov" :: ws => handleCov ws
   | _ => "skip"
 
 end RtenVerif.Driver.C14
